@@ -17,6 +17,13 @@ The loop objects are LIVE: an operation "s" assigns one of the public configurat
 assessor.name, enable_cache, cache_ttl, enable_circuit_breaker, failure_threshold, recovery_timeout) - between
 requests or while requests are in flight; "the configured gate logic" of the property is what is configured when
 the request is dealt with, not what the loop was built with.
+TIME: an agent's express() may TAKE time.  A request carried out in one go can say how many milliseconds its
+executor / its assessor needs before it answers (the stub - or the recorder in front of a built-in agent - lets that
+time pass on the virtual clock AND, up to 4 ms, on the real one, so whichever clock an implementation reads, the
+agent was slow), and the loop's `timeout_seconds` (milliseconds here, /1000 at the call) is part of a loop's
+configuration and assignable like the other attributes (operation "s", attribute "timeout").  The property speaks of
+the agents' verdicts, not of verdicts that came in time: the monitor judges a reply on what the agents answered
+however long they took.
 translate() rebuilds the gate decision table by calling the real
 _apply_gate_logic on every combination and writes it to coq/gen/Gen_C07.v, where
 Gen_C07_ok / Gen_C07_complete must re-prove that the model's gate is that table.
@@ -26,6 +33,7 @@ import hashlib
 import io
 import itertools
 import threading
+import time as _time
 import unicodedata
 from datetime import datetime as _real_datetime, timedelta as _timedelta
 
@@ -48,6 +56,10 @@ CAP = 1000      # the literal in _cache_result
 # the configuration attributes a caller can assign on a live loop -> the constructor of Model.v's [setting]
 SETTINGS = {"logic": "SLogic", "name": "SAssessor", "cache": "SCache", "ttl": "STtl", "breaker": "SBreaker",
             "threshold": "SThreshold", "recovery": "SRecovery"}
+REAL_CAP_MS = 4             # an agent that needs d ms lets min(d, 4) ms pass on the real clock (all d ms on the virtual one)
+DELAYS = [0, 0, 0, 3, 5, 8, 30, 60]         # ms an agent may need; every non-zero one exceeds every SHORT timeout
+SHORT_TIMEOUTS = [0, 1, 2]                  # ms
+LONG_TIMEOUTS = [30000, 10 ** 6]            # ms; no delay of the alphabet comes near
 BASE = _real_datetime(2026, 1, 1, 0, 0, 0)
 DAY = 86400 * 1000          # all times and TTLs of a case are in milliseconds
 
@@ -186,6 +198,7 @@ class Stub:
         if rq.get("suspend") == self.role and not rq.get("suspended"):
             rq["suspended"] = True
             rq["park"](rq)
+        pass_time(rq.get("clock"), (rq.get("delays") or (0, 0))[self.role])
         code, var = rq["script"][self.role]
         if code == 7:
             raise EXCS[var % len(EXCS)](f"stub {self.name!r} crashed")
@@ -193,15 +206,27 @@ class Stub:
         return self.AP(action_type=s, payload=f"{s}/{var}", confidence=0.5)
 
 
+def pass_time(clock, ms):
+    """The agent works for `ms` milliseconds before it answers: on the virtual clock and (capped) on the real one."""
+    if ms:
+        if clock is not None:
+            clock.t += ms
+        if ms > 0:
+            _time.sleep(min(ms, REAL_CAP_MS) / 1000.0)
+
+
 class Recorder:
     """Stands between the loop and one of its BUILT-IN BioAgents: same .name, same .express, and records
-    what the agent was shown and what it answered (the verdict is then part of the request, as for a stub)."""
+    what the agent was shown and what it answered (the verdict is then part of the request, as for a stub).
+    `delay` = the milliseconds the agent needs at the request being made."""
 
     def __init__(self, inner):
         self.inner = inner
         self.calls = 0
         self.seen = []
         self.last = (5, 0)
+        self.delay = 0
+        self.clock = None
 
     @property
     def name(self):
@@ -214,6 +239,7 @@ class Recorder:
     def express(self, signal):
         self.calls += 1
         self.seen.append(signal.content)
+        pass_time(self.clock, self.delay)
         try:
             out = self.inner.express(signal)
         except Exception:
@@ -267,8 +293,8 @@ class C07(Check):
     N_THOROUGH = 20000
     RULE = ("a case is a history of operations - run(prompt) at a clock value with scripted agent behaviour, clear_cache(), "
             "reset_circuit_breaker(), the read-only calls, assignments to the configuration attributes of the live object "
-            "(gate_logic, assessor.name, enable_cache, cache_ttl, enable_circuit_breaker, failure_threshold, recovery_timeout) "
-            "- against one or two loop objects (own configuration, agents, cache, "
+            "(gate_logic, assessor.name, enable_cache, cache_ttl, enable_circuit_breaker, failure_threshold, recovery_timeout, "
+            "timeout_seconds) - against one or two loop objects (own configuration, agents, cache, "
             "breaker). exhaustive: all 6 gate logics x 8 x 8 agent verdicts (EXECUTE, PERMIT, BLOCK, FAILURE, DEFER, UNKNOWN, "
             "other string, exception), each followed by a repeat of the same prompt with different scripted verdicts (cache "
             "on) = 384 histories, 24 re-run with the cache off; 6 logics x 3 kinds of earlier reply (passed with token, passed "
@@ -296,7 +322,13 @@ class C07(Check):
             "attributes (assessor renamed between / during requests, TTL shortened / lengthened around an entry's age, "
             "cache off and on again, off / on while in flight, breaker enabled when its counters had already opened it, "
             "disabled while open, threshold lowered, recovery time shortened); 30 histories with the built-in BioAgents "
-            "(dry run under one logic, go live under another, with and without clear_cache()). random: 1..14 operations (5% clear_cache, 7% read-only calls, 4% reset_circuit_breaker) on 1 or 2 loops over "
+            "(dry run under one logic, go live under another, with and without clear_cache()); TIME: requests in one go whose "
+            "stub executor / assessor needs 3..60 ms before it answers (virtual clock, and up to 4 ms of real time.sleep) on loops "
+            "whose timeout_seconds is 0 / 1 ms / 2 ms (every delay exceeds it) or 30 s / 1000 s: 6 logics x slow executor / slow "
+            "assessor (thorough tier: / both) x all 8 x 8 verdict pairs; 6 logics x 8 situations (TTL counted from the moment a "
+            "slow reply was produced, timeout_seconds assigned between / during requests, the breaker told when the raising "
+            "executor had answered, a cached reply takes no time, two loops with two timeouts, the built-in BioAgents delayed "
+            "behind the recorder, slow within the timeout) over 10 verdict pairs. random: 1..14 operations (5% clear_cache, 7% read-only calls, 4% reset_circuit_breaker) on 1 or 2 loops over "
             "the re-spellings of one base text plus 0..2 unrelated texts; prompt alphabet = 23 base texts x 30 re-spellings "
             "(whitespace, case, NFC/NFD/NFKC/NFKD, full-width, ligatures, homoglyphs, zero-width/BOM/NUL, truncations and "
             "extensions beyond 16/64 chars; non-BMP, RTL, Hangul, combining sequences); clock steps in {0,1,40,50,60,999,1000,"
@@ -308,10 +340,13 @@ class C07(Check):
             "threads, 1 in 8 re-entrant): up to 3 in flight, ended in any order (threads) / innermost first (re-entrant), 15% "
             "of the threaded ones leave requests suspended for good, and end by asking for two of the prompts again; 3 in 10 "
             "random histories (sequential or overlapping) reconfigure the live object(s): there 15% of the operations are "
-            "assignments (half of them gate_logic, the rest spread over the six other attributes, values from the lists above). "
+            "assignments (half of them gate_logic, the rest spread over the seven other attributes incl. timeout_seconds, values "
+            "from the lists above); 1 in 4 random histories is timed: timeout_seconds per loop from {0,1,2 ms (2 in 3), 30 s, "
+            "1000 s}, 45% of its requests in one go with delays from {0,0,0,3,5,8,30,60} ms per agent, 0..2 assignments of "
+            "timeout_seconds anywhere (also while requests are in flight). "
             "distinct by case content; non-trivial = every enumerated "
             "cell, and a random history only if it contains a cache hit, an expiry, an exception, a breaker rejection or a "
-            "not-blocked reply or a request that was suspended")
+            "not-blocked reply or a request that was suspended or a request whose agents needed time")
     LEVEL_TEXT = ("Coq theorems about a hand-written model of CoherentFeedForwardLoop.run/_apply_gate_logic/clear_cache and, as a "
                   "layer on top, its circuit breaker: for all 6 logics and all verdict pairs the result is not-blocked iff an "
                   "independently transcribed spec_pass holds; exceptions and unknown verdicts block; a token is attached iff "
@@ -339,17 +374,26 @@ class C07(Check):
                   "in force at that moment (a cached one: the logic in force when its original was decided), cached replies "
                   "repeat an earlier uncached reply to the same prompt within the TTL now in force, a token's issuer is the "
                   "assessor's name when the reply was produced, two objects reconfigured at will stay isolated; histories "
-                  "without an assignment are exactly the overlapping ones. The gate table is "
+                  "without an assignment are exactly the overlapping ones; TIMED histories (requests whose agents need any time "
+                  "before they answer, timeout_seconds given at construction and assigned anywhere): a slow request is the two halves "
+                  "of an overlapping request with nothing in between, the second half elapsed(q, d) after the first; for ALL delays "
+                  "and ALL timeouts the reply of a request whose agents were asked is the gate's outcome on its own agents' answers "
+                  "(a verdict that comes late is still the verdict), every not-blocked reply satisfies the logic, cached replies "
+                  "repeat an earlier reply within the TTL counted from when that one was produced, tokens are bound as before; the "
+                  "events of a history do not depend on timeout_seconds at all; two timed objects stay isolated. The gate table is "
                   "regenerated from the real _apply_gate_logic on every run and re-proved equal to the model's.")
     LEVEL_NOTE = ("Trusts: Coq kernel+VM; harness and enumeration translator; sha256/md5 truncations abstract (H, K), both "
                   "injective on each history's prompts (checked per case); configuration changed only by plain assignment of "
-                  "values of the constructor's types to the seven attributes, between the (half-)operations of a history. "
+                  "values of the constructor's types to the eight attributes, between the (half-)operations of a history; an agent's "
+                  "slowness is realised by the stubs (virtual clock + at most 4 ms real sleep). "
                   "Axioms: none (Print Assumptions: closed).")
     TECHNIQUE = ("Coq: exhaustive case analysis for the finite gate table + induction over the operation history with a cache "
                  "provenance invariant + refinement lemma (breaker history -> admitted sub-history) + projection lemma for "
                  "two objects + two-half (enter/leave) small-step semantics of run() with a cache provenance invariant over "
                  "arbitrary interleavings + the same invariant with the configuration as part of the state (entry = own gate outcome "
-                 "of an earlier request under the configuration in force at that moment) for histories with assignments; table regenerated by enumeration of the real function; vm_compute correspondence against "
+                 "of an earlier request under the configuration in force at that moment) for histories with assignments; the same "
+                 "invariant once more for timed histories (slow request = enter at t, leave at t + elapsed; timeout carried, read by "
+                 "nothing) + erasure lemma for timeout_seconds; table regenerated by enumeration of the real function; vm_compute correspondence against "
                  "CoherentFeedForwardLoop.run")
     TRUSTED = ["modelled not verified: sha256(prompt)[:16] and md5(prompt)[:16] are abstract functions H and K; the harness "
                "checks on every case that both are injective on the prompts of the case and observes only whether "
@@ -380,11 +424,19 @@ class C07(Check):
                "assignment the monitor accepts any value configured between its begin and its return (the model says: the "
                "one at its return); a cached reply is held to what was configured when its original was decided; a reply "
                "produced while enable_cache was False is nobody's original",
+               "time: how long an agent takes is part of the request (delays d_exec, d_assess, whole milliseconds, given only to "
+               "requests carried out in one go; a request begun and ended by separate operations takes as long as its end says); "
+               "the stub / recorder advances the virtual clock by the delay and sleeps min(delay, 4 ms) of real time before "
+               "answering, so 'slow relative to timeout_seconds' (timeouts 0 / 1 / 2 ms against delays >= 3 ms; 30 s / 1000 s "
+               "against delays <= 60 ms) holds on either clock; durations themselves are never compared, only replies and the "
+               "clock values that show in later cache / breaker behaviour; the model carries timeout_seconds and reads it nowhere, "
+               "as the code does; an implementation that runs agents on other threads to enforce a deadline is outside what the "
+               "stubs can drive (reported as a driver error)",
                "virtual clock: loops.datetime rebound to an object whose now() is constant during one half of a request (a request that is suspended ends at a later clock value than it began); times, "
                "TTLs and recovery times are whole milliseconds (x_seconds = ms/1000.0, exact in timedelta's microseconds)"]
     ASSUMPTIONS = ["cache theorem: md5(prompt)[:16] (K) is injective on the prompts of the history; token theorems: so is sha256(prompt)[:16] (H)",
                    "the configuration is changed only by assigning gate_logic, assessor.name, enable_cache, cache_ttl, enable_circuit_breaker, "
-                   "failure_threshold, recovery_timeout (values of the constructor's types); executor / assessor objects, callbacks, "
+                   "failure_threshold, recovery_timeout, timeout_seconds (values of the constructor's types); executor / assessor objects, callbacks, "
                    "silent and private attributes are not replaced or mutated during a history",
                    "prompts are UTF-8 encodable str (run() raises UnicodeEncodeError on a lone surrogate: no reply at all)",
                    "an 'agent exception' is an Exception subclass (BaseException such as KeyboardInterrupt propagates)",
@@ -433,9 +485,16 @@ class C07(Check):
     # case = {"loops": [cfg, ...(1 or 2)], "ops": [[loop, "r", prompt, t_ms, z, zvar, y, yvar] | [loop, "c"] | [loop, "o"] | [loop, "x"]]}
     # cfg  = {"logic", "name", "cache", "ttl" (ms), "breaker", "threshold", "recovery" (ms), "silent", "callbacks", "agents", "budget"}
     def _cfg(self, logic, cache=True, ttl=300000, name=0, breaker=False, silent=True, threshold=NEVER, recovery=60000,
-             callbacks=False, agents="stub", budget=100):
-        return {"logic": logic, "name": name, "cache": cache, "ttl": ttl, "breaker": breaker, "threshold": threshold,
-                "recovery": recovery, "silent": silent, "callbacks": callbacks, "agents": agents, "budget": budget}
+             callbacks=False, agents="stub", budget=100, timeout=None):
+        cfg = {"logic": logic, "name": name, "cache": cache, "ttl": ttl, "breaker": breaker, "threshold": threshold,
+               "recovery": recovery, "silent": silent, "callbacks": callbacks, "agents": agents, "budget": budget}
+        if timeout is not None:
+            cfg["timeout"] = timeout        # ms; without the key: 30 s or 1 ms, by the assessor's name
+        return cfg
+
+    @staticmethod
+    def _timeout_ms(cfg):
+        return cfg.get("timeout", (30000, 1)[cfg["name"] % 2])
 
     def _case(self, logic, reqs, cache=True, ttl=300000, name=0, **kw):
         """One loop, requests only: reqs = [[prompt, t_ms, z, zvar, y, yvar], ...]."""
@@ -536,16 +595,94 @@ class C07(Check):
                 for p in rng.sample(ps, min(len(ps), 2)):
                     t += rng.choice([0, 1, 40])
                     ops.append([rng.randrange(nloops), "r", p, t, 2, 0, 2, 0])
-                out.append({"loops": loops, "ops": ops, "overlap": overlap})
+                out.append(self._maybe_timed(rng, {"loops": loops, "ops": ops, "overlap": overlap}))
                 continue
-            out.append({"loops": loops, "ops": ops})
+            out.append(self._maybe_timed(rng, {"loops": loops, "ops": ops}))
+        return out
+
+    def _maybe_timed(self, rng, case):
+        """One random history in four is a TIMED one: every loop gets a timeout_seconds of its own (two in three far
+        below any delay), 45% of its requests in one go have agents that need time, and timeout_seconds is assigned
+        once or twice somewhere in it (also while requests are in flight)."""
+        if rng.random() >= 0.25:
+            return case
+        for cfg in case["loops"]:
+            cfg["timeout"] = rng.choice(SHORT_TIMEOUTS + SHORT_TIMEOUTS + LONG_TIMEOUTS)
+        for op in case["ops"]:
+            if op[1] == "r" and len(op) == 8 and rng.random() < 0.45:
+                op += [rng.choice(DELAYS), rng.choice(DELAYS)]
+        for _ in range(rng.choice([0, 1, 1, 2])):
+            case["ops"].insert(rng.randrange(len(case["ops"]) + 1),
+                               [rng.randrange(len(case["loops"])), "s", "timeout", rng.choice(SHORT_TIMEOUTS + LONG_TIMEOUTS)])
+        return case
+
+    # agents that need time.  (1) every gate logic x which agent is slow x all 8 x 8 verdict pairs, timeout_seconds far
+    # below the delay; (2) every gate logic x what the time an agent took could be confused with / could leak into
+    TIMED_PAIRS = [(0, 2), (1, 2), (0, 4), (3, 1), (2, 1), (0, 1), (0, 0), (5, 1), (0, 5), (1, 6)]
+    TIMED_SCENARIOS = ["stamped-when-answered", "timeout-assigned", "timeout-assigned-in-flight", "breaker-told-when-answered",
+                       "cached-takes-no-time", "two-loops-two-timeouts", "built-in-agents", "slow-within-timeout"]
+
+    def _timed_cases(self):
+        out = []
+        i = 0
+        whos = [("executor", 3, 0), ("assessor", 0, 3)] + ([("both", 3, 5)] if self.tier != "quick" else [])
+        for l in range(6):
+            for (_who, dz, dy) in whos:
+                ops = [[0, "r", f"{BASES[i % len(BASES)][:12]} {z}{y}", 10 * (8 * z + y), z, i, y, i // 3, dz, dy]
+                       for z in range(8) for y in range(8)]
+                out.append({"loops": [self._cfg(l, cache=False, name=i % len(NAMES), silent=(i % 5 != 0), callbacks=(i % 3 == 0),
+                                                timeout=SHORT_TIMEOUTS[i % 3])], "ops": ops})
+                i += 1
+        for l in range(6):
+            for sc in self.TIMED_SCENARIOS:
+                z, y = self.TIMED_PAIRS[i % len(self.TIMED_PAIRS)]
+                p, q = PROMPTS[i % len(PROMPTS)], PROMPTS[(i + 7) % len(PROMPTS)]
+                if p == q:
+                    p, q = "a", "b"
+                slow = (0, 30) if i % 2 else (30, 0)
+                T = lambda pr, t, dz, dy, zz=z, yy=y, lp=0: [lp, "r", pr, t, zz, i, yy, i // 3, dz, dy]
+                R = lambda pr, t, zz=z, yy=y, lp=0: [lp, "r", pr, t, zz, i, yy, i // 3]
+                S = lambda v, lp=0: [lp, "s", "timeout", v]
+                cfg = self._cfg(l, ttl=50, name=i % len(NAMES), silent=(i % 5 != 0), callbacks=(i % 3 == 0), timeout=SHORT_TIMEOUTS[i % 3])
+                case = {"loops": [cfg]}
+                if sc == "stamped-when-answered":       # the TTL runs from the moment the reply was produced, 30 ms after the call
+                    ops = [T(p, 0, *slow), R(p, 79, 2, 2), R(p, 80), T(q, 81, 8, 8), R(q, 146, 2, 2), R(q, 147, 2, 2)]
+                elif sc == "timeout-assigned":          # the same slow request under three timeouts: three times the same reply
+                    cfg["timeout"] = 30000
+                    ops = [T(p, 0, 0, 5), S(1), [0, "c"], T(p, 100, 0, 5), S(10 ** 6), [0, "c"], T(p, 200, 5, 0), S(0), T(q, 300, 3, 3)]
+                elif sc == "timeout-assigned-in-flight":
+                    cfg["timeout"] = 30000
+                    ops = [[0, "b", 0, p, 0, z, i, y, i // 3, i % 2], S(0), T(q, 1, 3, 3), [0, "e", 0, 40], S(30000), T(p + "!", 41, 0, 3)]
+                    case["overlap"] = ("threads", "nested")[i % 2]
+                elif sc == "breaker-told-when-answered":    # the executor raises after 40 ms (the assessor, never asked, takes no time)
+                    cfg.update(breaker=True, threshold=1, recovery=100, ttl=300000)
+                    ops = [T(q, 0, 40, 60, 7, 1), R(p, 139), T(p, 140, 3, 0), R(p, 141, 2, 2), T(q, 142, 0, 3)]
+                elif sc == "cached-takes-no-time":      # a reply served from the cache asks nobody and waits for nobody
+                    cfg.update(ttl=1000)
+                    ops = [T(p, 0, 5, 5), T(p, 20, 60, 60, 2, 2), R(q, 21), T(p, 1009, 60, 60, 2, 2), T(p, 1010, 3, 3, 2, 2)]
+                elif sc == "two-loops-two-timeouts":
+                    case["loops"] = [cfg, dict(cfg, timeout=10 ** 6)]
+                    ops = [T(p, 0, *slow), T(p, 0, *slow, lp=1), S(30000), S(1, lp=1), T(q, 100, 5, 8), T(q, 100, 5, 8, lp=1)]
+                elif sc == "built-in-agents":
+                    cfg.update(agents="builtin", name=0, budget=1000, ttl=300000)
+                    ps = [self.BUILTIN_PROMPTS[(i + 3 * j) % len(self.BUILTIN_PROMPTS)] for j in range(4)]
+                    ops = [[0, "r", pr, 10 * j, 0, 0, 0, 0, (3, 0, 5, 3)[j], (0, 3, 5, 8)[j]] for j, pr in enumerate(ps)] + \
+                          [S(10 ** 6), [0, "c"]] + [[0, "r", pr, 100 + 10 * j, 0, 0, 0, 0, 3, 3] for j, pr in enumerate(ps)]
+                else:                                   # slow-within-timeout: slow agents, a deadline they meet
+                    cfg["timeout"] = LONG_TIMEOUTS[i % 2]
+                    ops = [T(p, 0, 8, 8), T(q, 10, 0, 60), R(p, 20, 2, 2), T(q, 121, 3, 0)]
+                case["ops"] = ops
+                out.append(case)
+                i += 1
         return out
 
     def _random_setting(self, rng, lp):
-        attr = rng.choice(["logic"] * 10 + ["name", "name", "cache", "cache", "ttl", "ttl", "breaker", "breaker", "threshold", "recovery"])
+        attr = rng.choice(["logic"] * 10 + ["name", "name", "cache", "cache", "ttl", "ttl", "breaker", "breaker", "threshold", "recovery",
+                                            "timeout"])
         v = {"logic": lambda: rng.randrange(6), "name": lambda: rng.randrange(len(NAMES)), "cache": lambda: rng.random() < 0.6,
              "ttl": lambda: rng.choice(self.TTLS), "breaker": lambda: rng.random() < 0.6,
-             "threshold": lambda: rng.choice(self.THRESHOLDS + [NEVER]), "recovery": lambda: rng.choice(self.RECOVERIES)}[attr]()
+             "threshold": lambda: rng.choice(self.THRESHOLDS + [NEVER]), "recovery": lambda: rng.choice(self.RECOVERIES),
+             "timeout": lambda: rng.choice(SHORT_TIMEOUTS + LONG_TIMEOUTS)}[attr]()
         return [lp, "s", attr, v]
 
     # reconfiguration of a live loop object.  (1) every ordered pair of gate logics (built with / assigned later) x all
@@ -843,6 +980,7 @@ class C07(Check):
         out += self._builtin_cases()
         out += self._overlap_cases()
         out += self._reconf_cases()
+        out += self._timed_cases()
         # every re-spelling of a text is a request of its own: the text is approved and cached first,
         # then each re-spelling is sent within the TTL while the agents would now block
         for b in BASES:
@@ -919,7 +1057,7 @@ class C07(Check):
                         enable_circuit_breaker=bool(cfg.get("breaker")), failure_threshold=cfg.get("threshold", NEVER),
                         recovery_timeout_seconds=cfg.get("recovery", 60000) / 1000.0,
                         enable_cache=cfg["cache"], cache_ttl_seconds=cfg["ttl"] / 1000.0,
-                        timeout_seconds=(30.0, 0.001)[cfg["name"] % 2], silent=bool(cfg.get("silent", True)), **kw)
+                        timeout_seconds=self._timeout_ms(cfg) / 1000.0, silent=bool(cfg.get("silent", True)), **kw)
                     if str(cfg.get("agents")).startswith("builtin"):
                         if cfg["agents"] == "builtin-other-role":   # an agent of a role the mock LLM has no instruction for
                             from operon_ai.core.agent import BioAgent
@@ -928,10 +1066,11 @@ class C07(Check):
                     else:
                         ex = Stub("Gene_Z (Exec)" if cfg["name"] != 2 else "Z", ActionProtein, 0, ctx)
                         asr = Stub(NAMES[cfg["name"]], ActionProtein, 1, ctx)
+                    ex.clock = asr.clock = clock
                     loop.executor, loop.assessor = ex, asr
                     objs.append((loop, ex, asr, events))
                     cur.append({"logic": LOGIC_NAMES[cfg["logic"]], "name": asr.name, "breaker": bool(cfg.get("breaker")),
-                                "cache": bool(cfg["cache"])})
+                                "cache": bool(cfg["cache"]), "timeout": self._timeout_ms(cfg)})
                     setlog.append([])
 
                 def assign(i, lp, attr, v):
@@ -954,6 +1093,9 @@ class C07(Check):
                         loop.failure_threshold = val = v
                     elif attr == "recovery":
                         loop.recovery_timeout = _timedelta(seconds=v / 1000.0)
+                        val = v
+                    elif attr == "timeout":
+                        loop.timeout_seconds = v / 1000.0
                         val = v
                     else:
                         raise HarnessBug(f"no such configuration attribute: {attr!r}")
@@ -978,15 +1120,18 @@ class C07(Check):
                     finally:
                         st.pop()
 
-                def new_rq(i, lp, p, t, z, zv, y, yv, suspend=None):
+                def new_rq(i, lp, p, t, z, zv, y, yv, suspend=None, delays=None):
                     loop, ex, asr, events = objs[lp]
                     builtin = str(case["loops"][lp].get("agents")).startswith("builtin")
-                    return {"index": i, "loop": lp, "prompt": p, "script": ((z, zv), (y, yv)), "called": [0, 0], "shown": [],
+                    if builtin:
+                        ex.delay, asr.delay = delays or (0, 0)
+                    return {"index": i, "delays": delays, "clock": clock, "loop": lp, "prompt": p, "script": ((z, zv), (y, yv)), "called": [0, 0], "shown": [],
                             "suspend": suspend, "builtin": builtin, "c0": len(events),
                             "cfg0": dict(cur[lp]), "set0": len(setlog[lp]),
                             "e0": getattr(ex, "calls", 0), "a0": getattr(asr, "calls", 0),
                             "s0": len(getattr(ex, "seen", ())), "s1": len(getattr(asr, "seen", ())),
-                            "rec": {"op": "r", "loop": lp, "prompt": p, "t": t, "z": z, "y": y, "begun": i}}
+                            "rec": {"op": "r", "loop": lp, "prompt": p, "t": t, "z": z, "y": y, "begun": i,
+                                    "delays": delays}}
 
                 def finish(i, rq):
                     """run() of request rq has returned: its record and its observation row, at position i."""
@@ -1002,6 +1147,7 @@ class C07(Check):
                     rec["names"] = list(dict.fromkeys([rq["cfg0"]["name"]] + [v for _i, a, v in since if a == "name"]))
                     rec["caching"] = list(dict.fromkeys([rq["cfg0"]["cache"]] + [v for _i, a, v in since if a == "cache"]))
                     rec["breaker_on"] = bool(rq["cfg0"]["breaker"])
+                    rec["timeouts"] = list(dict.fromkeys([rq["cfg0"]["timeout"]] + [v for _i, a, v in since if a == "timeout"]))
                     rec["logic_assigned_at"] = [j for j, a, _v in setlog[lp] if a == "logic"]
                     if "raised" in rq:
                         rec["raised"] = rq["raised"]
@@ -1152,9 +1298,9 @@ class C07(Check):
                                 return
                             continue
                         else:
-                            (p, t, z, zv, y, yv) = op[2:]
+                            (p, t, z, zv, y, yv) = op[2:8]
                             clock.t = t
-                            rq = new_rq(i, lp, p, t, z, zv, y, yv)
+                            rq = new_rq(i, lp, p, t, z, zv, y, yv, delays=tuple(op[8:10]) if len(op) >= 10 else None)
                             call_run(lp, rq)
                             finish(i, rq)
                             continue
@@ -1184,7 +1330,8 @@ class C07(Check):
 
     def _coq_cfg(self, cfg):
         return ctuple(LOGIC_COQ[cfg["logic"]], cstr(NAMES[cfg["name"]]), cbool(cfg["cache"]), cz(cfg["ttl"]),
-                      cbool(cfg.get("breaker")), cz(cfg.get("threshold", NEVER)), cz(cfg.get("recovery", 60000)))
+                      cbool(cfg.get("breaker")), cz(cfg.get("threshold", NEVER)), cz(cfg.get("recovery", 60000)),
+                      cz(self._timeout_ms(cfg)))
 
     def coq_case(self, case):
         said = None
@@ -1197,10 +1344,13 @@ class C07(Check):
         for op in case["ops"]:
             b = cbool(op[0] == 1)
             if op[1] == "r":
-                (p, t, z, _zv, y, _yv) = op[2:]
+                (p, t, z, _zv, y, _yv) = op[2:8]
                 if said is not None:
                     z, y = next(said)
-                ops.append(ctuple(b, f"CReq {cstr(p)} {cz(t)} {VERDICT_COQ[z]} {VERDICT_COQ[y]}"))
+                if len(op) >= 10:       # agents that need time
+                    ops.append(ctuple(b, f"CSlow {cstr(p)} {cz(t)} {VERDICT_COQ[z]} {VERDICT_COQ[y]} {cz(op[8])} {cz(op[9])}"))
+                else:
+                    ops.append(ctuple(b, f"CReq {cstr(p)} {cz(t)} {VERDICT_COQ[z]} {VERDICT_COQ[y]}"))
             elif op[1] == "b":
                 (rid, p, t, z, _zv, y, _yv, _where) = op[2:]
                 ops.append(ctuple(b, f"CBegin {cz(rid)} {cstr(p)} {cz(t)} {VERDICT_COQ[z]} {VERDICT_COQ[y]}"))
@@ -1208,6 +1358,9 @@ class C07(Check):
                 ops.append(ctuple(b, f"CEnd {cz(op[2])} {cz(op[3])}"))
             elif op[1] == "s":
                 attr, v = op[2], op[3]
+                if attr == "timeout":
+                    ops.append(ctuple(b, f"CSetTimeout {cz(v)}"))
+                    continue
                 arg = (LOGIC_COQ[v] if attr == "logic" else cstr(NAMES[v]) if attr == "name"
                        else cbool(v) if attr in ("cache", "breaker") else cz(v))
                 ops.append(ctuple(b, f"CSet ({SETTINGS[attr]} {arg})"))
@@ -1280,18 +1433,20 @@ class C07(Check):
                 # a reply produced with caching switched off is nobody's original: an earlier one stays
             if not r["blocked"] and not any(spec_pass(lg, z, y) for lg in logics):
                 logic = "/".join(logics)
+                timing = self._timing(r if (r["exec_called"] or r["assess_called"]) else o)
                 at = [j for j in r["logic_assigned_at"] if j < i]
                 if at:
                     logic += f" (gate_logic assigned at operation {at[-1]}; the loop was built with {trace['logics'][r['loop']]})"
                 if z == 7 or y == 7:
-                    return Violation("C07/exception-not-blocked", f"request {i} ({r['prompt']!r}): {'the executor' if z == 7 else 'the assessor'} raised but the result is not blocked ({logic}; action {r['action']}, cached flag {r['cached']}, token {'yes' if r['token'] else 'no'})")
+                    return Violation("C07/exception-not-blocked", f"request {i} ({r['prompt']!r}): {'the executor' if z == 7 else 'the assessor'} raised but the result is not blocked ({logic}; action {r['action']}, cached flag {r['cached']}, token {'yes' if r['token'] else 'no'})" + timing)
                 if z in UNKNOWN_CODES and y in UNKNOWN_CODES:
-                    return Violation("C07/unknown-not-blocked", f"request {i}: both verdicts unknown ({VERDICT_COQ[z]}, {VERDICT_COQ[y]}) but not blocked under {logic}")
-                return Violation("C07/pass-without-approvals", f"request {i}: not blocked under {logic} with executor {VERDICT_COQ[z]} / assessor {VERDICT_COQ[y]}")
+                    return Violation("C07/unknown-not-blocked", f"request {i}: both verdicts unknown ({VERDICT_COQ[z]}, {VERDICT_COQ[y]}) but not blocked under {logic}" + timing)
+                return Violation("C07/pass-without-approvals", f"request {i}: not blocked under {logic} with executor {VERDICT_COQ[z]} / assessor {VERDICT_COQ[y]}" + timing)
             if r["token"] is not None:
                 h, issuer = r["token"]
                 if y != 1:
-                    return Violation("C07/token-without-assessor-permit", f"request {i}: approval token attached although the assessor said {VERDICT_COQ[y]}")
+                    return Violation("C07/token-without-assessor-permit", f"request {i}: approval token attached although the assessor said {VERDICT_COQ[y]}"
+                                     + self._timing(r if (r["exec_called"] or r["assess_called"]) else o))
                 if h != sha16(r["prompt"]):
                     return Violation("C07/token-hash-not-bound", f"request {i}: token hash {h} is not sha256({r['prompt']!r})[:16] = {sha16(r['prompt'])}")
                 if issuer not in names:
@@ -1299,6 +1454,16 @@ class C07(Check):
                 if token_for.setdefault(h, r["prompt"]) != r["prompt"]:
                     return Violation("C07/token-shared-between-requests", f"request {i}: the token for {r['prompt']!r} carries the same request hash {h} as the token given for {token_for[h]!r}")
         return None
+
+    @staticmethod
+    def _timing(r):
+        """How long the agents of the request took (if they took any time), and the timeout_seconds configured meanwhile."""
+        d = r.get("delays")
+        if not d or not any(d):
+            return ""
+        tmo = "/".join(f"{t / 1000.0:g}" for t in r.get("timeouts", []))
+        return (f" [its agents were slow: the executor answered after {d[0]} ms" +
+                ("" if r.get("z") == 7 else f", the assessor after {d[1]} ms") + f"; timeout_seconds = {tmo}]")
 
     @staticmethod
     def _prompts(case):
@@ -1309,13 +1474,14 @@ class C07(Check):
         if len(case["ops"]) <= 3 and len(self._prompts(case)) == 1:
             return True         # a cell of one of the enumerated tables
         return any(r.get("cached") or r.get("raised") or r.get("blocked") is False or r["z"] == 7 or r["y"] == 7
-                   or r.get("action") == "CIRCUIT_OPEN" or r.get("overlapped") for r in recs)
+                   or r.get("action") == "CIRCUIT_OPEN" or r.get("overlapped") or (r.get("delays") and any(r["delays"]))
+                   for r in recs)
 
     def classify(self, case, obs, trace):
         ks = [f"loops={len(case['loops'])}", f"ops<={((len(case['ops']) + 3) // 4) * 4}"]
         for lg, cfg in zip(trace.get("logics", []), case["loops"]):
             th = cfg.get("threshold", NEVER)
-            ks += [f"logic={lg}", f"cache={'on' if cfg['cache'] else 'off'}", f"ttl_ms={cfg['ttl']}",
+            ks += [f"timeout_ms={self._timeout_ms(cfg)}", f"logic={lg}", f"cache={'on' if cfg['cache'] else 'off'}", f"ttl_ms={cfg['ttl']}",
                    "breaker=" + ("off" if not cfg.get("breaker") else "on(never opens)" if th == NEVER else f"on(threshold {th})"),
                    f"silent={bool(cfg.get('silent', True))}", f"agents={cfg.get('agents', 'stub')}",
                    f"callbacks={'recording' if cfg.get('callbacks') else 'none'}"]
@@ -1370,6 +1536,20 @@ class C07(Check):
                 continue
             for k in r.get("callbacks", []):
                 ks.append(f"callback=on_{k}")
+            if r.get("delays") is not None:
+                d, asked = r["delays"], bool(r["exec_called"])
+                took = (d[0] + (0 if r["z"] == 7 else d[1])) if asked else 0
+                late = [a for a, ms, on in (("executor", d[0], asked), ("assessor", d[1], bool(r["assess_called"])))
+                        if on and any(ms > t for t in r.get("timeouts", []))]
+                ks.append("timed/request-with-delays" + ("" if asked else "/nobody-asked"))
+                for a in late:
+                    ks.append(f"timed/{a}-answered-after-timeout_seconds")
+                    if not r["blocked"]:
+                        ks.append(f"timed/{a}-answered-after-timeout_seconds/reply-not-blocked")
+                if asked and took and not late:
+                    ks.append("timed/slow-but-within-timeout_seconds")
+                if asked and r["z"] == 7 and d[1]:
+                    ks.append("timed/executor-raised-assessor-delay-not-spent")
             ks.append("reply=cache-hit" if r["cached"] else "reply=fresh")
             ks.append("reply=not-blocked" if not r["blocked"] else f"reply=blocked/{r['action']}")
             if r["token"] is not None:
